@@ -477,17 +477,31 @@ class SATEncoder:
         for t in range(min_start, max_end):
             active_lits = []
             active_demands = []
+            by_task: list[tuple[int, list[int]]] = []
             for i in range(n):
+                task_lits = []
                 for s in range(max(starts[i].lb, t - durations[i] + 1), min(starts[i].ub, t) + 1):
                     if s in starts[i].bool_vars and s <= t < s + durations[i]:
                         active_lits.append(starts[i].bool_vars[s])
                         active_demands.append(demands[i])
+                        task_lits.append(starts[i].bool_vars[s])
+                if task_lits:
+                    by_task.append((demands[i], task_lits))
 
             if not active_lits:
                 continue
 
             if len(active_lits) <= 10:
                 self._encode_capacity_constraint(active_lits, active_demands, capacity)
+            else:
+                # Too many literals for the subset enumeration above: a task has at most one start, so it is enough
+                # to forbid, for every minimal overloaded set of tasks, each combination of their start literals.
+                for size in range(1, len(by_task) + 1):
+                    for subset in combinations(range(len(by_task)), size):
+                        load = sum(by_task[i][0] for i in subset)
+                        if load > capacity and all(load - by_task[i][0] <= capacity for i in subset):
+                            for lits in product(*(by_task[i][1] for i in subset)):
+                                self._clauses.append([-lit for lit in lits])
 
     def _encode_capacity_constraint(self, lits: list[int], demands: list[int], capacity: int) -> None:
         """Encode sum constraint: if all lits true, demands sum must <= capacity."""
